@@ -342,6 +342,11 @@ class RandInfoBuilder(ModelVisitor,RandIF):
         # Summing the array relates all array elements
         for f in e.arr.field_l:
             self.process_fieldref(f)
+        if e.arr.is_rand_sz:
+            self.process_fieldref(e.arr.size)
+
+    def visit_expr_array_product(self, e):
+        self.visit_expr_array_sum(e)
 
     def visit_expr_fieldref(self, e):
         # If the field is already referenced by an existing randset
